@@ -86,3 +86,49 @@ func (m *Monitor) Stop() int64 {
 	}
 	return m.peak
 }
+
+// ---- was the harness itself running? ---------------------------------------------
+
+var hb struct {
+	once sync.Once
+	mu   sync.Mutex
+	at   []time.Time
+	gap  []time.Duration
+}
+
+// StartHeartbeat starts a goroutine that notices when this process is not scheduled (a loaded or frozen
+// machine): a watchdog that expires during such a gap says nothing about the server.
+func StartHeartbeat() {
+	hb.once.Do(func() {
+		go func() {
+			prev := time.Now()
+			for {
+				time.Sleep(20 * time.Millisecond)
+				now := time.Now()
+				if d := now.Sub(prev) - 20*time.Millisecond; d > 200*time.Millisecond {
+					hb.mu.Lock()
+					hb.at = append(hb.at, now)
+					hb.gap = append(hb.gap, d)
+					if len(hb.at) > 2000 {
+						hb.at, hb.gap = hb.at[1000:], hb.gap[1000:]
+					}
+					hb.mu.Unlock()
+				}
+				prev = now
+			}
+		}()
+	})
+}
+
+// MaxStallSince returns the longest time this process was not scheduled since t.
+func MaxStallSince(t time.Time) time.Duration {
+	hb.mu.Lock()
+	defer hb.mu.Unlock()
+	var m time.Duration
+	for i := len(hb.at) - 1; i >= 0 && hb.at[i].After(t); i-- {
+		if hb.gap[i] > m {
+			m = hb.gap[i]
+		}
+	}
+	return m
+}
